@@ -33,6 +33,24 @@ class Session:
             out.append(row["results"][0])
         return out
 
+    def patched_unsat(self, items, build_query):
+        """Known-finding attribution by term patch (DESIGN 1.4). items: list of (key, pattern).
+        For every pattern that has the rooted-leading-tree piece, the obligation is re-asked on the
+        patched term (build_query(key, patched_smt) -> smt text). Returns the set of keys whose
+        patched obligation is unsat, i.e. whose counterexample is explained by that finding alone."""
+        import roles as R
+        todo = [(k, R.patch_rooted_leading_tree(p)) for k, p in items]
+        todo = [(k, p) for k, p in todo if p is not None]
+        if not todo:
+            return set()
+        rows = probe([{"op": "re", "re": p} for _, p in todo])
+        tasks = []
+        for (k, _), row in zip(todo, rows):
+            if row and "smt" in row:
+                tasks.append((("patch", k), build_query(k, row["smt"])))
+        res = self.pool.solve(tasks, keep_unsat=False)
+        return {k[1] for k, v in res.items() if v[0] == "unsat"}
+
     def finish(self, programs, extra=None, inconclusive=None):
         xs = cross_check_unsat(self.pool, 200 if tier() == "quick" else 10 ** 9, self.rnd)
         if xs[3]:
